@@ -16,7 +16,11 @@ ASSUME = ["interpretations: one dimension in {1, 2, 3} per atom name (winding ig
           "spiders (delta tensors, fusion), bubbles (two entrywise functions) and formal sums of parallel diagrams are evaluated through tensor.Diagram.eval for the swap/box diagrams of the model; object images are single dimensions"]
 CONST = {"quick": {"inv": (2, 3), "dump": (3, 3), "replay": 450, "MaxCC": 2},
          "thorough": {"inv": (3, 3), "dump": (4, 3), "replay": 20000, "MaxCC": 2}}
-INTERPS = {"Dims23": [2, 3], "Dims21": [2, 1], "Dims32": [3, 2]}
+INTERPS = {"Dims23": [[2], [3]], "Dims21": [[2], [1]], "Dims32": [[3], [2]],
+           # multi-wire object images (an extension of the claim's "dimension per atomic type"): Dim(2, 2) is its own
+           # mirror image so cups exist; Dim(2, 3) is replayed on cup-free diagrams only (the library refuses the cup)
+           "DimsM22": [[2, 2], [3]], "DimsM23": [[2, 3], [2]]}
+MULTI_MAX = 40      # largest flattened layer width replayed under a multi-wire interpretation (TLC multiplies the matrices)
 
 
 def gen(s, rows, cols):
@@ -56,16 +60,22 @@ def _work(args):
     from harness.adapters.free import RigidAdapter
     A = RigidAdapter()
     x, y = rigid.Ty('x'), rigid.Ty('y')
-    dimmap = {"x": dims[0], "y": dims[1]}
+    dimmap = {"x": tuple(dims[0]), "y": tuple(dims[1])}
+
+    def flat(t):
+        return [v for a in t for v in dimmap[A.ATOMS[a[0]]]]
 
     def size(t):
         n = 1
-        for a in t:
-            n *= dimmap[A.ATOMS[a[0]]]
+        for v in flat(t):
+            n *= v
         return n
 
     def shape(t):
-        return tuple(dimmap[A.ATOMS[a[0]]] for a in t if dimmap[A.ATOMS[a[0]]] != 1)
+        return tuple(v for v in flat(t) if v != 1)
+
+    def asdim(v):
+        return v[0] if len(v) == 1 else Dim(*v)
     seen_parallel = {}
     with open(out, "w") as f:
         for k, dabs in enumerate(states):
@@ -77,7 +87,7 @@ def _work(args):
                     box = A.box(und)
                     ar[box] = gen(b["id"], size(und["dom"]), size(und["cod"])).reshape(shape(und["dom"]) + shape(und["cod"]))
             fvar = (k + mode) % 4
-            ob = {x: dims[0], y: dims[1]} if fvar % 2 == 0 else {x: Dim(dims[0]), y: Dim(dims[1])}
+            ob = {x: asdim(dims[0]), y: asdim(dims[1])} if fvar % 2 == 0 else {x: Dim(*dims[0]), y: Dim(*dims[1])}
             if fvar >= 2:
                 obd, ard = dict(ob), dict(ar)
                 F = tensor.Functor(ob=lambda t: obd[t], ar=lambda b: ard[b])
@@ -119,13 +129,12 @@ def _work(args):
                     all(a[1] == 0 for b in dabs["boxes"] for a in b["dom"] + b["cod"]):
                 # the same diagram as a tensor.Diagram of tensor boxes, evaluated by .eval()
                 try:
-                    td = tensor.Id(Dim(*[dimmap[A.ATOMS[a[0]]] for a in dabs["dom"]]))
+                    td = tensor.Id(Dim(*flat(dabs["dom"])))
                     for b, o in zip(dabs["boxes"], dabs["offs"]):
-                        dm = Dim(*[dimmap[A.ATOMS[a[0]]] for a in b["dom"]])
-                        cd = Dim(*[dimmap[A.ATOMS[a[0]]] for a in b["cod"]])
+                        dm = Dim(*flat(b["dom"]))
+                        cd = Dim(*flat(b["cod"]))
                         if b["kind"] == 1:
-                            tb = tensor.Diagram.swap(dm[:1] if len(dm) else dm, dm[1:]) if len(dm) == 2 else \
-                                tensor.Diagram.swap(Dim(dimmap[A.ATOMS[b["dom"][0][0]]]), Dim(dimmap[A.ATOMS[b["dom"][1][0]]]))
+                            tb = tensor.Diagram.swap(Dim(*flat(b["dom"][:1])), Dim(*flat(b["dom"][1:])))
                         elif b["dg"]:
                             tb = tensor.Box("b%d" % b["id"], cd, dm, gen(b["id"], size(b["cod"]), size(b["dom"])).reshape(
                                 shape(b["cod"]) + shape(b["dom"]))).dagger()
@@ -133,8 +142,8 @@ def _work(args):
                             tb = tensor.Box("b%d" % b["id"], dm, cd, gen(b["id"], size(b["dom"]), size(b["cod"])).reshape(
                                 shape(b["dom"]) + shape(b["cod"])))
                         # offsets count wires of dimension > 1 only (Dim drops 1s)
-                        lw = Dim(*[dimmap[A.ATOMS[a[0]]] for a in _scan_at(dabs, b, o)[0]])
-                        rw = Dim(*[dimmap[A.ATOMS[a[0]]] for a in _scan_at(dabs, b, o)[1]])
+                        lw = Dim(*flat(_scan_at(dabs, b, o)[0]))
+                        rw = Dim(*flat(_scan_at(dabs, b, o)[1]))
                         td = td >> tensor.Id(lw) @ tb @ tensor.Id(rw)
                     rec["variants"].append(variant("tensor_eval", proj(td.eval())))
                     # bubbles: the entrywise image of the inside under the bubble's function
@@ -153,7 +162,7 @@ def _work(args):
                     rec["variants"].append(variant("tensor_eval", EMPTY, type(e).__name__))
             if k < 6:
                 # spiders by their defining delta tensors, and spider fusion
-                for (n, m, dd) in ((1, 2, 2), (2, 1, 3), (0, 2, 2), (2, 0, 3), (1, 1, 2), (2, 2, 2), (0, 0, 3), (3, 1, 2))[k::6] + ((1, 2, dims[0] or 2),):
+                for (n, m, dd) in ((1, 2, 2), (2, 1, 3), (0, 2, 2), (2, 0, 3), (1, 1, 2), (2, 2, 2), (0, 0, 3), (3, 1, 2))[k::6] + ((1, 2, dims[0][0] or 2),):
                     if dd < 2:
                         continue
                     try:
@@ -178,6 +187,21 @@ def _scan_at(dabs, box, off):
     raise KeyError
 
 
+def _widest(d, dims):
+    """largest flattened size of a layer boundary of the abstract diagram under the interpretation"""
+    def size(t):
+        n = 1
+        for a in t:
+            for v in dims[a[0] - 1]:
+                n *= v
+        return n
+    scan, best = list(d["dom"]), size(d["dom"])
+    for b, o in zip(d["boxes"], d["offs"]):
+        scan = scan[:o] + b["cod"] + scan[o + len(b["dom"]):]
+        best = max(best, size(scan))
+    return best
+
+
 def describe(d):
     def b(x):
         return {1: "Swap", 2: "Cup", 3: "Cap"}.get(x["kind"], "b%d%s" % (x["id"], "+" if x["dg"] else ""))
@@ -191,8 +215,11 @@ def run(tier, seed, t0):
         rnd = core.rng(seed, "C09")
         tot_states = tot_trans = 0
         for mi, (iname, dims) in enumerate(INTERPS.items()):
+            if iname == "DimsM23":
+                continue        # same theorem as DimsM22; the cup-free half adds nothing at model level
+            wmax = 2 if (iname == "DimsM22" and tier == "quick") else c["inv"][1]    # 48x48 products are slow in TLC
             inv = core.run_model("MC_Eval", work, constants={"DimOf": "<- " + iname, "MaxBoxes": c["inv"][0],
-                                                              "MaxWidth": c["inv"][1], "MaxCC": c["MaxCC"]},
+                                                              "MaxWidth": wmax, "MaxCC": c["MaxCC"]},
                                  invariants=["InvShape", "InvInterchangeSound", "InvYankSound"], timeout=3000,
                                  tag="_inv%d" % mi)
             tot_states += inv["distinct"]
@@ -208,7 +235,12 @@ def run(tier, seed, t0):
         n_all = len(states)
         for mi, (iname, dims) in enumerate(INTERPS.items()):
             n = c["replay"] if mi == 0 else c["replay"] // 3
-            sample = states if len(states) <= n else rnd.sample(states, n)
+            pool_ = states
+            if iname.startswith("DimsM"):
+                pool_ = [d for d in states if _widest(d, dims) <= MULTI_MAX and
+                         (iname == "DimsM22" or all(b["kind"] in (0, 1) for b in d["boxes"]))]
+                n = c["replay"] // 6
+            sample = pool_ if len(pool_) <= n else rnd.sample(pool_, n)
             procs = 16
             chunks = [(sample[k::procs], dims, os.path.join(work, "obs-%d-%d.ndjson" % (mi, k)), k) for k in range(procs)]
             with mp.get_context("fork").Pool(procs) as pool:
@@ -233,7 +265,7 @@ def run(tier, seed, t0):
                                  "obs": {"d": t["d"], "interp": t["interp"]}})
         can = None
         for t, v in zip(rows, verdicts):
-            if v[0] == "ok" and len(t["prefixes"]) >= 3 and len(t["prefixes"][-1]["a"]) >= 4 and t["interp"] == [2, 3] \
+            if v[0] == "ok" and len(t["prefixes"]) >= 3 and len(t["prefixes"][-1]["a"]) >= 4 and t["interp"] == [[2], [3]] \
                     and t["prefixes"][-1]["a"][0] != t["prefixes"][-1]["a"][1]:
                 bad = json.loads(json.dumps(t))
                 a = bad["prefixes"][-1]["a"]
